@@ -1,0 +1,16 @@
+//go:build verif
+// +build verif
+
+package executor
+
+import "mvdan.cc/sh/v3/interp"
+
+// VerifInterpOptions are applied to every interpreter created by NewDefaultExecutor.
+// Only compiled with the `verif` build tag; used by the deterministic simulator in /verif.
+var VerifInterpOptions []interp.RunnerOption
+
+func verifApply(r *interp.Runner) {
+	for _, o := range VerifInterpOptions {
+		_ = o(r)
+	}
+}
